@@ -347,6 +347,147 @@ func runSlow(rec *vcommon.Rec, carrier string, d time.Duration) {
 	rec.Stat("slow_transfers_completed:"+carrier, 1)
 }
 
+// runLongLived: a carrier that lives longer than every periodic timer of the stack (keep-alives, pings: 10-30 s) while it is
+// saturated ("busy": both directions written as fast as they go) or back-pressured ("paused": the target stops reading
+// for the whole period while the application keeps writing, the other direction keeps flowing). Every byte read is
+// compared online; at the end both readers must have received exactly what was written.
+func runLongLived(rec *vcommon.Rec, carrier, mode string, d time.Duration) {
+	c := map[string]interface{}{"scenario": "long-lived:" + mode, "carrier": carrier, "seconds": d.Seconds()}
+	rec.Mark(c)
+	p, err := e2e.Start(e2e.Options{Carrier: carrier, Tag: "v"})
+	if err != nil {
+		rec.Violation(carrier+":unix:setup-failed", c, err.Error())
+		return
+	}
+	defer p.Close()
+	app, tgt, o, err := p.Open("echo")
+	if err != nil || o != e2e.Done {
+		rec.Inconclusive("long-lived: open failed", c)
+		return
+	}
+	defer app.Close()
+	defer tgt.Close()
+	start := time.Now()
+	type side struct {
+		dir      string
+		w, r     net.Conn
+		key      uint64
+		sent     int64 // atomic
+		got      int64 // atomic
+		wdone    int32 // atomic
+		werr     string
+		rerr     string
+		pauseFor time.Duration
+	}
+	k := uint64(rec.Seed())*977 + 11
+	sides := []*side{{dir: "c2t", w: app, r: tgt, key: k}, {dir: "t2c", w: tgt, r: app, key: k + 1}}
+	if mode == "paused" {
+		sides[0].pauseFor = d // the target does not read what the application sends
+	}
+	var wg sync.WaitGroup
+	for _, sd := range sides {
+		sd := sd
+		wg.Add(1)
+		go func() { // writer: as fast as the tunnel takes it, until the period is over
+			defer wg.Done()
+			defer atomic.StoreInt32(&sd.wdone, 1)
+			buf := make([]byte, 32768)
+			for time.Since(start) < d+2*time.Second {
+				off := atomic.LoadInt64(&sd.sent)
+				vcommon.FillKeyed(sd.key, off, buf)
+				n, err := sd.w.Write(buf)
+				atomic.AddInt64(&sd.sent, int64(n))
+				if err != nil {
+					sd.werr = fmt.Sprintf("write failed after %d bytes (%.0f s): %v", off+int64(n), time.Since(start).Seconds(), err)
+					return
+				}
+			}
+		}()
+		go func() { // reader: online comparison
+			buf := make([]byte, 65536)
+			if sd.pauseFor > 0 {
+				// read a little, then stand still for the period
+				for atomic.LoadInt64(&sd.got) < 1<<20 {
+					n, err := sd.r.Read(buf)
+					if n > 0 {
+						if bad := vcommon.CheckKeyed(sd.key, atomic.LoadInt64(&sd.got), buf[:n]); bad >= 0 {
+							sd.rerr = fmt.Sprintf("mismatch at offset %d", atomic.LoadInt64(&sd.got)+int64(bad))
+							return
+						}
+						atomic.AddInt64(&sd.got, int64(n))
+						e2e.Bump(n)
+					}
+					if err != nil {
+						sd.rerr = fmt.Sprintf("stream ended after %d bytes: %v", atomic.LoadInt64(&sd.got), err)
+						return
+					}
+				}
+				time.Sleep(sd.pauseFor)
+			}
+			for {
+				n, err := sd.r.Read(buf)
+				if n > 0 {
+					if bad := vcommon.CheckKeyed(sd.key, atomic.LoadInt64(&sd.got), buf[:n]); bad >= 0 {
+						sd.rerr = fmt.Sprintf("mismatch at offset %d", atomic.LoadInt64(&sd.got)+int64(bad))
+						return
+					}
+					atomic.AddInt64(&sd.got, int64(n))
+					e2e.Bump(n)
+				}
+				if err != nil {
+					return // the harness closes the sockets once everything has arrived; a premature end shows in the counters
+				}
+			}
+		}()
+	}
+	// wait for the writers (they stop by themselves), then for the readers to catch up, under the stall rule
+	wdone := e2e.Go(func() { wg.Wait() })
+	caught := e2e.Go(func() {
+		<-wdone
+		for {
+			all := true
+			for _, sd := range sides {
+				if sd.rerr != "" || sd.werr != "" {
+					return
+				}
+				if atomic.LoadInt64(&sd.got) < atomic.LoadInt64(&sd.sent) {
+					all = false
+				}
+			}
+			if all {
+				return
+			}
+			time.Sleep(20 * time.Millisecond)
+		}
+	})
+	// while a reader stands still on purpose the writer towards it is blocked: the other direction's progress keeps the rule quiet
+	out := e2e.WaitW(caught, e2e.StallWindow()+d)
+	if out == e2e.Inconclusive {
+		rec.Inconclusive("busy at watchdog", c)
+		return
+	}
+	for _, sd := range sides {
+		rec.Case("long-lived/"+carrier+"/"+mode+"/"+sd.dir, true)
+		rec.Seen("tuple(carrier,len-class,write-size,direction)", carrier+"|long-lived-"+mode+"|32768|"+sd.dir)
+		e := sd.werr
+		if e == "" {
+			e = sd.rerr
+		}
+		if e == "" && atomic.LoadInt64(&sd.got) != atomic.LoadInt64(&sd.sent) {
+			e = fmt.Sprintf("received %d of %d bytes written, then nothing more (%.0f s)", atomic.LoadInt64(&sd.got), atomic.LoadInt64(&sd.sent), time.Since(start).Seconds())
+			if out == e2e.Stalled {
+				e += "; goroutines: " + e2e.Clip(e2e.Stacks(), 30000)
+			}
+		}
+		if e != "" {
+			rec.Violation(carrier+":unix:"+sd.dir+":long-lived-"+mode+"-carrier:transfer-cut-or-damaged", c, e)
+			return
+		}
+		rec.Stat("bytes_verified_"+sd.dir+":"+carrier, atomic.LoadInt64(&sd.got))
+	}
+	rec.Stat("long_lived_transfers_completed:"+carrier+":"+mode, 1)
+}
+
 // runResidues: one logical connection; writes of 1, 2, 3, ... maxN bytes, each delivered before the next is written (so
 // that every write travels as a frame of its own): every message length the carrier's framing, fragmentation or name
 // encoding can see occurs once per direction.
@@ -527,6 +668,27 @@ func TestVerifC01(t *testing.T) {
 		carriers = strings.Split(v, ",")
 	}
 	if rec.Replay != nil {
+		var sc struct {
+			Scenario    string  `json:"scenario"`
+			Carrier     string  `json:"carrier"`
+			Seconds     float64 `json:"seconds"`
+			SecondsEach float64 `json:"seconds_each_way"`
+			Writer      string  `json:"writer"`
+			Connections int     `json:"connections"`
+		}
+		if json.Unmarshal(rec.Replay, &sc) == nil && sc.Scenario != "" {
+			switch {
+			case strings.HasPrefix(sc.Scenario, "long-lived:"):
+				runLongLived(rec, sc.Carrier, sc.Scenario[len("long-lived:"):], time.Duration(sc.Seconds*float64(time.Second)))
+				return
+			case sc.Scenario == "slow-one-way":
+				runSlow(rec, sc.Carrier, time.Duration(sc.SecondsEach*float64(time.Second)))
+				return
+			case sc.Scenario == "many-short-connections":
+				runManyShort(rec, sc.Carrier, sc.Writer, sc.Connections)
+				return
+			}
+		}
 		var c c01Case
 		if err := json.Unmarshal(rec.Replay, &c); err != nil {
 			t.Fatal(err)
@@ -576,6 +738,11 @@ func TestVerifC01(t *testing.T) {
 			items = append(items, item{c, "sizes"})
 		}
 	}
+	for _, x := range []item{{"ws", "long:busy"}, {"ws", "long:paused"}, {"tcp", "long:paused"}, {"udp", "long:busy"}, {"wss", "long:paused"}} {
+		if extras {
+			items = append(items, x)
+		}
+	}
 	for _, c := range []string{"tcp", "ws"} {
 		if extras {
 			items = append(items, item{c, "many-short:target"}, item{c, "many-short:app"})
@@ -587,6 +754,10 @@ func TestVerifC01(t *testing.T) {
 		}
 		if strings.HasPrefix(it.Lst, "many-short:") {
 			runManyShort(rec, it.Carrier, it.Lst[len("many-short:"):], rec.Pick(6000, 40000))
+			continue
+		}
+		if strings.HasPrefix(it.Lst, "long:") {
+			runLongLived(rec, it.Carrier, it.Lst[len("long:"):], time.Duration(rec.Pick(35, 70))*time.Second)
 			continue
 		}
 		if it.Lst == "sizes" {
